@@ -752,6 +752,58 @@ fn run_tag_list_shapes(cx: &mut CaseCx, case: &Value) {
   cx.outcome("tag list shapes");
 }
 
+
+/// MANY requests on ONE server object: 1200 evaluations (every 5th verifiable, tags in rotation incl. punctured
+/// and unregistered ones) with a puncture every 300 - every answer per the model and with the original value
+fn run_many_requests(cx: &mut CaseCx, _case: &Value) {
+  let b = setup(cx);
+  let mut inst = Inst { s: b.initial.clone(), punct: BTreeSet::new() };
+  let mut n = 0u64;
+  for round in 0..4usize {
+    for i in 0..300usize {
+      let ti = (i * 5 + round) % TAGS.len();
+      let t = TAGS[ti];
+      let pi = i % b.points.len();
+      let verifiable = i % 5 == 0;
+      n += 1;
+      cx.eval();
+      let got = guard(|| inst.s.eval(&b.points[pi], t, verifiable));
+      let should = REGISTERED.contains(&t) && !inst.punct.contains(&t);
+      match got {
+        Ok(Ok(ev)) if should => {
+          if Some(*ev.output.as_bytes()) != b.baseline[ti][pi] {
+            cx.viol("C14/many-requests/answer-changed", format!("request number {} on one server object (tag {}): the answer differs from the original server's", n, t), json!({"request_number": n, "tag": t, "punctured": inst.punct}));
+            return;
+          }
+          if verifiable && guard(|| pp::Client::verify(&b.pk, &b.points[pi], &ev, t)) != Ok(true) {
+            cx.viol("C14/many-requests/proof-does-not-verify", format!("request number {} on one server object (tag {}): the proof does not verify against the original public key", n, t), json!({"request_number": n, "tag": t}));
+            return;
+          }
+        }
+        Ok(Err(_)) if !should => {}
+        Ok(r) => {
+          cx.viol(if r.is_ok() { "C14/many-requests/answers-against-model" } else { "C14/many-requests/refuses-live-tag" }, format!("request number {} on one server object: tag {} is {} but the server {}", n, t, if should { "registered and unpunctured" } else { "punctured or unregistered" }, if r.is_ok() { "answers" } else { "refuses" }), json!({"request_number": n, "tag": t, "punctured": inst.punct}));
+          return;
+        }
+        Err(p) => {
+          cx.viol("C14/eval-panicked", p, json!({"request_number": n}));
+          return;
+        }
+      }
+    }
+    let t = [2u8, 128, 255, 0][round];
+    if inst.s.puncture(t).is_ok() {
+      inst.punct.insert(t);
+    }
+    check_instance(cx, 0, &inst, &b, &[]);
+    cx.count("states", 1);
+    cx.count("transitions", 301);
+  }
+  cx.count("requests_on_one_server", n);
+  cx.nontrivial(1);
+  cx.outcome("many requests");
+}
+
 /// replay of one recorded history (also used as the "plain unit test" form of a counterexample)
 fn run_history(cx: &mut CaseCx, case: &Value) {
   let path: Vec<Act> = serde_json::from_value(case["history"].clone()).unwrap();
@@ -841,6 +893,13 @@ pub fn spec() -> PropSpec {
         gen: |_| (0..9u64).map(|l| json!({"list": l})).collect(),
         run: run_tag_list_shapes,
         min_counts: &[("tag_answers_as_listed", 5000)],
+      },
+      Check {
+        name: "many-requests",
+        rule: "ONE server object through 1200 requests (tags in rotation incl. punctured and unregistered ones, three probe points, every 5th with a proof) with a puncture after every 300: every answer per the model, equal to the original server's, proofs verify against the original key (counters, pools or caches that wrap or run out after hundreds of calls)",
+        gen: |_| vec![json!({})],
+        run: run_many_requests,
+        min_counts: &[("requests_on_one_server", 1200)],
       },
       Check {
         name: "fixed-histories",
